@@ -69,6 +69,17 @@ def base_strategy():
             methods.append(fb)
         probes.append({"args": [draw(st.sampled_from(fit(p["ann"]) or corpus)) for p in star["pos"]], "kw": {},
                        "script": [["site", k, "same"], ["site", 0, "same"]]})
+        if draw(st.booleans()):
+            # a high-priority catch-all "gate" in front of everything: it is a candidate for EVERY type tuple of its
+            # arity, so a delegation from it reaches other tuples through a cross-type continuation lookup
+            strict = bool(star["pos"]) and star["pos"][0].get("posonly")
+            gid = len(methods)
+            gate = {"id": gid, "prio": 5, "kw": [], "sites": [{"fn": "call_next", "npos": len(star["pos"]), "kws": []}],
+                    "pos": [dict(p, ann=["obj"], name=(f"q{gid}_{j}" if strict else p["name"])) for j, p in enumerate(star["pos"])]}
+            methods.insert(0, gate)  # registered first, so that the 'rebuild' scenario still adds an ordinary method last
+            for pr in probes:
+                if len(pr["args"]) == len(gate["pos"]):
+                    pr["script"] = [["site", 0, "same"]] + list(pr.get("script") or [])
         return {"methods": methods, "probes": probes}
 
     return _base()
@@ -247,13 +258,14 @@ def run_inject(spec, k=None):
             # first of all, reach the interrupted type tuple through a delegation from a call on OTHER argument types
             # (a plain call on that tuple would simply redo, and thereby repair, the interrupted resolution)
             later, first = spec["probes"][-1], spec["probes"][0]
-            for k in (0, 1):
-                probes.insert(0, {"args": first["args"], "kw": first["kw"], "script": [["site", k, later["args"], {}]]})
-            # ... and walk the delegation chain of the interrupted call itself (its first rank may already be cached
-            # while the continuation entries are not)
+            # walk the delegation chain of the interrupted call itself (its first rank may already be cached while the
+            # continuation entries are not)
             for k in (0, 1):
                 probes.insert(0, {"args": later["args"], "kw": later["kw"],
                                   "script": [["site", k, "same"], ["site", k, "same"], ["site", k, "same"]]})
+            # ... but FIRST reach the interrupted tuple through a delegation from a call on other types
+            for k in (0, 1):
+                probes.insert(0, {"args": first["args"], "kw": first["kw"], "script": [["site", k, later["args"], {}]]})
         expected = fresh_expect(pspec, env, ids, probes)
         check_probes(res, prog, env, probes, expected,
                      f"after a fault injected at {where[0]}:{where[1]} ({where[2]}) during '{spec['scenario']}' "
